@@ -1278,6 +1278,10 @@ func ruleC15_5(c *Ctx) {
 				// one level up: visitedSymlinks parameter / free variable
 				ok = strings.Contains(org(recv), "visitedSymlinks")
 				why = "visited set passed down from RecordArtifacts (NewSet(), R-C13-3)"
+				if prm, isP := recv.(*ssa.Parameter); isP && !ok {
+					ok = c.setArgNonNil(f, prm, 0)
+					why = "every caller passes a set that was made (NewSet / make) or its own visited set"
+				}
 			case *ssa.UnOp:
 				ok = strings.Contains(org(recv), "visitedSymlinks")
 				why = "visited set passed down from RecordArtifacts (NewSet(), R-C13-3)"
@@ -1603,4 +1607,43 @@ func lessFuncIndex(f *ssa.Function, s boundSite) bool {
 		}
 	}
 	return false
+}
+
+// setArgNonNil: f is an unexported function and every module caller passes, for parameter prm, a set that is known to
+// exist: NewSet(), a made map, the captured visited set, or a parameter of the caller for which the same holds.
+func (c *Ctx) setArgNonNil(f *ssa.Function, prm *ssa.Parameter, depth int) bool {
+	if depth > 3 || f.Object() == nil || f.Object().Exported() {
+		return false
+	}
+	node := c.CG.Nodes[f]
+	if node == nil || len(node.In) == 0 {
+		return false
+	}
+	for _, e := range node.In {
+		cs := e.Site
+		if cs == nil || cs.Common().StaticCallee() != f || paramIndex(prm) >= len(cs.Common().Args) {
+			return false
+		}
+		a := resolve(cs.Common().Args[paramIndex(prm)], cs)
+		switch x := a.(type) {
+		case *ssa.Call:
+			if calleeName(x) != "in_toto.NewSet" {
+				return false
+			}
+		case *ssa.MakeMap:
+		case *ssa.ChangeType:
+			if _, ok := x.X.(*ssa.MakeMap); !ok {
+				return false
+			}
+		case *ssa.Parameter:
+			if !strings.Contains(x.Name(), "visitedSymlinks") && !c.setArgNonNil(e.Caller.Func, x, depth+1) {
+				return false
+			}
+		default:
+			if !strings.Contains(org(a), "visitedSymlinks") {
+				return false
+			}
+		}
+	}
+	return true
 }
